@@ -10,6 +10,7 @@ import (
 	"verif/props/c05"
 	"verif/props/c06"
 	"verif/props/c07"
+	"verif/props/c08"
 	"verif/props/c09"
 	"verif/props/c10"
 	"verif/props/c11"
@@ -27,6 +28,7 @@ func Registry() map[string]func() *mon.Spec {
 		"C05": c05.Spec,
 		"C06": c06.Spec,
 		"C07": c07.Spec,
+		"C08": c08.Spec,
 		"C09": c09.Spec,
 		"C10": c10.Spec,
 		"C11": c11.Spec,
